@@ -291,11 +291,11 @@ func checkAll(r *simkit.Run, lo base.Height, f func(base.Height)) {
 
 func init() {
 	simkit.Register(&simkit.Harness{
-		ID:   "C23",
-		Run:  c23Run,
-		Real: []string{"isaacdatabase.TempPool expel-operation methods", "isaac.SuffrageExpelOperation", "leveldbstorage", "goleveldb on memory storage"},
-		Stub: []string{},
-		Rule: "each run draws 1-4 nodes, 1-8 expel operations with random [start,end] ranges (including ranges lying entirely above the queried height and several ranges per node), and 2-16 steps of set / traverse / lookup / remove-by-height / remove-by-fact / pool restart / full sweep over every height and node; after every step the result is compared for exact set equality with an interval model. distinct = event-log hash; non-trivial = non-zero choice and oracle evaluated",
+		ID:          "C23",
+		Run:         c23Run,
+		Real:        []string{"isaacdatabase.TempPool expel-operation methods", "isaac.SuffrageExpelOperation", "leveldbstorage", "goleveldb on memory storage"},
+		Stub:        []string{},
+		Rule:        "each run draws 1-4 nodes, 1-8 expel operations with random [start,end] ranges (including ranges lying entirely above the queried height and several ranges per node), and 2-16 steps of set / traverse / lookup / remove-by-height / remove-by-fact / pool restart / full sweep over every height and node; after every step the result is compared for exact set equality with an interval model. distinct = event-log hash; non-trivial = non-zero choice and oracle evaluated",
 		Assumptions: []string{"sequential client: this property quantifies over inputs and histories, the kernel contributes the fake clock, restart and deterministic replay"},
 	})
 }
